@@ -142,7 +142,9 @@ class Ctx:
     def pool(self):
         if self._pool is None:
             ctx = multiprocessing.get_context('fork')
-            self._pool = ctx.Pool(self.workers)
+            # one fresh forked process per task: a shard's outcome can then only depend on its own cases, so a failure
+            # that needs history is reproducible by re-running that shard alone
+            self._pool = ctx.Pool(self.workers, maxtasksperchild=1)
         return self._pool
 
     def map(self, func, items, chunksize=1):
@@ -184,7 +186,10 @@ def _shard_entry(a):
     module_name, func_name, i, n, tier, payload = a
     mod = importlib.import_module(module_name)
     try:
-        return getattr(mod, func_name)(i, n, tier, payload)
+        r = getattr(mod, func_name)(i, n, tier, payload)
+        for fl in r.failures:
+            fl['shard'] = {'module': module_name, 'func': func_name, 'i': i, 'n': n, 'tier': tier, 'payload': payload}
+        return r
     except BaseException:
         r = Result()
         r.fail('harness_error @ shard', {'shard': i, 'of': n}, traceback.format_exc())
@@ -250,11 +255,11 @@ def find_module(pid):
     raise SystemExit(f"unknown property {pid}")
 
 
-def replay_in_subprocess(pid, path):
+def replay_in_subprocess(pid, path, shard=False):
     """Re-execute one recorded case in a fresh process. Returns (reproduced: bool, class_key or None, raw)."""
     env = dict(os.environ)
-    p = subprocess.run([os.path.join(VERIF, 'check'), pid, '--replay', path, '--machine'],
-                       capture_output=True, text=True, env=env, timeout=600)
+    p = subprocess.run([os.path.join(VERIF, 'check'), pid, '--replay', path, '--machine'] + (['--shard'] if shard else []),
+                       capture_output=True, text=True, env=env, timeout=3600)
     key = None
     for line in p.stdout.splitlines():
         if line.startswith('REPLAY-RESULT '):
@@ -262,10 +267,35 @@ def replay_in_subprocess(pid, path):
     return p.returncode, key, p.stdout + p.stderr
 
 
+def replay_shard(rec):
+    """Re-run the shard that produced a failure, alone, in this fresh process; returns the failure with the same key."""
+    sh = rec['shard']
+    m = importlib.import_module(sh['module'])
+    r = getattr(m, sh['func'])(sh['i'], sh['n'], sh['tier'], sh.get('payload'))
+    for fl in r.failures:
+        if fl['key'] == rec['class_key']:
+            return {'key': fl['key'], 'detail': fl['detail']}
+    return None
+
+
 def do_replay(mod, path, machine):
     with open(path) as f:
         rec = json.load(f)
     case = rec['case']
+    if rec.get('history_dependent') or '--shard' in sys.argv:
+        fail = replay_shard(rec)
+        if machine:
+            print('REPLAY-RESULT ' + json.dumps({'key': fail['key'] if fail else None}))
+        if fail:
+            print(f"replay (whole shard {rec['shard']['i']}/{rec['shard']['n']}, the failure depends on the cases before it): {fail['key']}\n{fail['detail']}")
+            known = {k['class_key'] for k in load_known() if k['property'] == mod.ID and k.get('status') == 'open'}
+            if fail['key'] in known:
+                print(f"KNOWN-FINDING: property={mod.ID} {fail['key']}")
+                return 0
+            print(f"VIOLATION property={mod.ID} replay={path}")
+            return 1
+        print("replay: shard passes")
+        return 0
     try:
         with time_limit(getattr(mod, 'REPLAY_TIMEOUT', 120)):
             fail = mod.replay(case)
@@ -291,6 +321,7 @@ def main(argv=None):
     ap.add_argument('--tier', default=os.environ.get('VERIF_TIER') or 'quick', choices=['quick', 'thorough'])
     ap.add_argument('--replay')
     ap.add_argument('--machine', action='store_true')
+    ap.add_argument('--shard', action='store_true', help='with --replay: re-run the whole recorded shard (history-dependent failures)')
     ap.add_argument('--workers', type=int, default=int(os.environ.get('VERIF_WORKERS', '0')) or (os.cpu_count() or 4))
     ap.add_argument('--no-confirm', action='store_true', help='skip fresh-process replay of failures (development)')
     args = ap.parse_args(argv)
@@ -344,18 +375,34 @@ def main(argv=None):
         rdir = os.path.join(OUT_DIR, 'replays', mod.ID) if OUT_DIR else os.path.join(VERIF, 'replays', mod.ID)
         os.makedirs(rdir, exist_ok=True)
         path = os.path.join(rdir, h(key) + '.json')
+        rec = {'property': mod.ID, 'class_key': key, 'case': first['case'], 'detail': first['detail'],
+               'cases_in_class': n, 'tier': ctx.tier, 'seed': seed, 'shard': first.get('shard')}
         with open(path, 'w') as f:
-            json.dump({'property': mod.ID, 'class_key': key, 'case': first['case'], 'detail': first['detail'],
-                       'cases_in_class': n, 'tier': ctx.tier, 'seed': seed}, f, indent=1, default=str)
+            json.dump(rec, f, indent=1, default=str)
         confirmed = True
         if not args.no_confirm and shown < 6 and not key.startswith('harness_error') and hasattr(mod, 'replay'):
             r1 = replay_in_subprocess(mod.ID, path)
             r2 = replay_in_subprocess(mod.ID, path)
             if r1[1] != key or r2[1] != key:
-                nondet = True
-                confirmed = False
-                print(f"HARNESS-NONDETERMINISM property={mod.ID} class={key} replay1={r1[1]} replay2={r2[1]} file={path}")
-                sys.stderr.write(r1[2][-1500:] + '\n')
+                # Not reproducible from a fresh process on its own. Either the harness is nondeterministic, or the
+                # library carries state from one comparison to the next. Decide by re-running the whole shard (fresh
+                # process, same cases in the same order) twice.
+                h1 = h2 = (None, None, '')
+                if first.get('shard'):
+                    h1 = replay_in_subprocess(mod.ID, path, shard=True)
+                    h2 = replay_in_subprocess(mod.ID, path, shard=True)
+                if h1[1] == key and h2[1] == key:
+                    rec['history_dependent'] = True
+                    rec['note'] = ('the case passes when run alone in a fresh process and fails, reproducibly, after the '
+                                   'preceding cases of its shard: the library carries state between comparisons')
+                    with open(path, 'w') as f:
+                        json.dump(rec, f, indent=1, default=str)
+                    first = dict(first, detail='[history-dependent: passes alone, fails after the preceding cases] ' + first['detail'])
+                else:
+                    nondet = True
+                    confirmed = False
+                    print(f"HARNESS-NONDETERMINISM property={mod.ID} class={key} replay1={r1[1]} replay2={r2[1]} file={path}")
+                    sys.stderr.write(r1[2][-1500:] + '\n')
         if confirmed:
             if shown < 25:
                 print(f"VIOLATION property={mod.ID} replay={path}   [{key}] ({n} cases) {first['detail'][:300]!r}")
